@@ -331,9 +331,20 @@ def run(repo, chk):
     rule_changes_forwarded(repo, chk, "R-C07-6")
     chk.floor("R-C07-6", 2)
 
+    # ---------------------------------------------------------------- R-C07-7 every junction's curve is built from that junction's own data
+    # (side condition of the single-iteration extraction above: the element loops carry nothing from one junction to the next)
+    n7 = B.check_loop_independence(repo, chk, "R-C07-7", [(CON, "pdd_constraint.build"), (PAR, "pmin_param.build"), (PAR, "pnom_param.build"),
+                                                         (PAR, "pdd_poly_coeffs_param.build"), (PAR, "expected_demand_param"), (B.VAR, "demand_var")], "junction")
+    chk.floor("R-C07-7", 6)
+
 
 HYD = "wntr/sim/hydraulics.py"
 WITNESSES = [
+    dict(name="exponent-carried-from-the-previous-junction", file=CON, old="            if node.pressure_exponent is None:\n                pressure_exponent = wn.options.hydraulic.pressure_exponent\n            else:\n                pressure_exponent = node.pressure_exponent",
+         new="            if node.pressure_exponent is not None:\n                pressure_exponent = node.pressure_exponent",
+         also=[("        for node_name in index_over:\n            if node_name in m.pdd:", "        pressure_exponent = wn.options.hydraulic.pressure_exponent\n        for node_name in index_over:\n            if node_name in m.pdd:")], rule="R-C07-7"),
+    dict(name="exponent-default-then-override-inside-the-loop-preserving", file=CON, old="            if node.pressure_exponent is None:\n                pressure_exponent = wn.options.hydraulic.pressure_exponent\n            else:\n                pressure_exponent = node.pressure_exponent",
+         new="            pressure_exponent = wn.options.hydraulic.pressure_exponent\n            if node.pressure_exponent is not None:\n                pressure_exponent = node.pressure_exponent", silent=True),
     dict(name="changes-of-isolated-elements-dropped", file=HYD, old="    for obj, attr in change_tracker.get_changes(ref_point='model'):\n        model_updater.update(m, wn, obj, attr)\n",
          new="    for obj, attr in change_tracker.get_changes(ref_point='model'):\n        if getattr(obj, '_is_isolated', False):\n            continue\n        model_updater.update(m, wn, obj, attr)\n", rule="R-C07-6"),
     dict(name="changes-materialised-first-preserving", file=HYD, old="    for obj, attr in change_tracker.get_changes(ref_point='model'):\n        model_updater.update(m, wn, obj, attr)\n",
